@@ -93,9 +93,26 @@ CLAIMS = {
          "(commuting: closure = generators, that many u(1)), a1 (closure = intervals, n(n-1)/2 = dim so(n)), b3 (all single-site strings, 3n). All other (family,n) decided "
          "per input by the Lean-verified closure invariants for 3<=n<=6/7 (size at 8) and classifier-vs-table to n=16/40. Refuted (known findings): a11, a12, a17 at n=3.",
          "generated-table tie theorems + all-n closure theorems for 5 families + Lean-verified closure per (family,n) + classifier correspondence"),
+ "C05": ("other", "6.C05", "Partial proof + verified per-output decision + refutation. The search procedures of the compiler are NOT modelled. Proved in Lean for ALL N, k, targets, "
+         "sequences: the executable validator validSeq accepts exactly the sequences that are non-empty, inside construct_universal_set(N,k) (closed form proved for all N,k) and "
+         "whose nested commutator of the 2^N x 2^N matrices in the documented orientation equals c*M(target), c != 0 (C04 lifted along the list + non-proportionality of distinct "
+         "Pauli matrices); orientation lemma for _sequence_to_paulie_orientation. Per output: EVERY sequence compile_target returns for all 4^N-1 targets, N<=4 (thorough N<=5), every "
+         "2<=k<N, and samples 6<=N<=8, is judged by the compiled validator, cross-checked by dense numpy commutators for N<=4. The property is FALSE on the tree (C05_refuted: "
+         "(3,2,YIY) -> [XIZ,YII,XIZ]); the 1709 failing targets with N<=5 are recorded findings (known/compiler_failures.json), anything else is a violation.",
+         "Lean-verified validator evaluated on every returned sequence + refutation witness replayed + differential correspondence of the evaluation helpers"),
+ "C06": ("other", "6.C06", "Refuted by observation, partially explained by proof. Totality concerns the unmodelled search; a raise cannot be exhibited in Lean. Lean proves the front end of "
+         "compile_target (guards, slicing) for all inputs, and for every N and odd k that NO sequence over the universal set evaluates to a target with Q=0 (so the compiler "
+         "must raise or return an invalid sequence there). The harness runs compile_target on all targets N<=4/5 and samples to N=8; the 612 raising targets with N<=5 are "
+         "recorded findings (exception type + raising function), any other raise is a violation.",
+         "exhaustive/sampled execution of the implementation + Lean obstruction theorem + differential correspondence of the front end"),
+ "C07": ("other", "6.C07", "Size/distinctness/length of construct_universal_set: Lean proof for ALL N and 2<=k<N about the model (closed form), model tied by exhaustive correspondence N<=10/12. "
+         "Generation: REFUTED in Lean for every N and every odd k (quadratic invariant Q with polar form omega, all 2N+1 generators have Q=1, X_{k+1} has Q=0), kernel anchor (4,3); "
+         "for even k generation is kernel-checked for N<=4 and decided per (N,k) by the Lean-verified closure checker for N<=6/8 (+ Python closure, + classifier get_algebra()==su(2^N) to "
+         "N=10/14). The all-N universality for even k (arXiv:2408.03294) is NOT proved.",
+         "Lean proof (size, refutation for all odd k) + Lean-verified closure checker per (N,k) + differential correspondence"),
 }
 PENDING = {}
-ACTIVE = ["C04", "C18", "C17", "C14", "C01", "C02", "C08", "C09", "C10", "C15", "C12", "C13", "C03", "C20", "C11", "C19"]
+ACTIVE = ["C04", "C18", "C17", "C14", "C01", "C02", "C08", "C09", "C10", "C15", "C12", "C13", "C03", "C20", "C11", "C19", "C05", "C06", "C07"]
 def main():
     props = [json.loads(l) for l in open(os.path.join(V, "properties.jsonl"))]
     checks, na = [], []
